@@ -124,12 +124,18 @@ def check(case, ctx):
     return fails
 
 
+def _any_routine(nmax):
+    from hypothesis import strategies as st
+    return st.sampled_from(list(mc.ROUTINES)).flatmap(lambda nm: mc.cases(nm, nmax))
+
+
 def units(tier):
     from . import c07
     nmax = 10 if tier == "quick" else 18
     us = [Unit("exhaustive-small-graphs-all-starts", check, count=lambda t: len(c07._exh_list(t)), cases=c07._exh_cases, shards=(16, 64),
                space="every labelled graph n<=4 (thorough: n<=5) and digraph n=3 (thorough: + every 5th n=4) with >= 1 edge x every set "
                      "partition as start x seeds {0,1} (thorough {0..3}) for finetune_und / finetune_und_sign / finetune_dir / community_louvain, gamma=1")]
+    us.append(Unit("all-routines-n<=32", check, strategy=lambda: _any_routine(32), examples=(120, 2400), shards=(12, 16)))
     for name in mc.ROUTINES:
         ex = (1500, 8000) if name == "community_louvain" else (700, 5000)
         us.append(Unit(name, check, strategy=(lambda nm=name: mc.cases(nm, nmax)), examples=ex, shards=(2, 8)))
